@@ -154,7 +154,8 @@ func genFmtCases(seed int64, tier string, scale float64) []fmtCase {
 		addCase("large", []ref.Msg{mk(l[0], l[1], baseTime, false, false), mk(1, 1, baseTime+1, false, false)})
 	}
 	// many small messages: index files around chunk/page-size boundaries of every item layout
-	for _, n := range []int{127, 128, 129, 169, 170, 171, 172, 255, 256, 257, 340, 341, 342, 511, 512, 513, 1023, 1025} {
+	// (64 KiB of 16-, 24- and 32-byte items: 4096, 2730.67, 2048)
+	for _, n := range []int{127, 128, 129, 169, 170, 171, 172, 255, 256, 257, 340, 341, 342, 511, 512, 513, 1023, 1025, 2047, 2049, 2730, 2731, 4097, 5461, 5462, 8200} {
 		var msgs []ref.Msg
 		t := baseTime
 		for j := 0; j < n; j++ {
